@@ -38,6 +38,7 @@ TScaled8 == {[w |-> 8, s |-> TRUE, pw |-> 8, bw |-> 0], [w |-> 8, s |-> FALSE, p
 TChar    == {[w |-> 8, s |-> TRUE, pw |-> 24, bw |-> 0], [w |-> 8, s |-> FALSE, pw |-> 24, bw |-> 0]}
 TAll8    == TScaled8 \cup TChar
 StepsStd == {-3, -2, -1, 1, 2, 3}
+StepsBig == {-3, -2, 2, 3}
 
 Pow2(n) == 2 ^ n
 MinOf(t) == IF t.s THEN -Pow2(t.w - 1) ELSE 0
@@ -223,8 +224,9 @@ HazardShape == Done => \A b \in Stops :
     \/ r.ev[1] \in {"init", "bound"} /\ (Special(ty, form, step) \/ form = "rev")
     \/ r.ev[1] = "calc" /\ form = "rev" /\ Abs(step) > 1
 
-StopSeq == LET RECURSIVE S(_) S(set) == IF set = {} THEN <<>> ELSE LET m == CHOOSE x \in set : \A y \in set : x <= y IN <<m>> \o S(set \ {m})
-           IN S(Stops)
+StopSeq == IF ~GridOnly THEN [i \in 1..(MaxOf(ty) - MinOf(ty) + 1) |-> MinOf(ty) + i - 1]
+           ELSE LET RECURSIVE S(_) S(set) == IF set = {} THEN <<>> ELSE LET m == CHOOSE x \in set : \A y \in set : x <= y IN <<m>> \o S(set \ {m})
+                IN S(Stops)
 Publish == (Dump /\ Done) => PrintT("@@" \o ToJson(
    [w |-> ty.w, s |-> ty.s, pw |-> ty.pw, bw |-> ty.bw, form |-> form, step |-> step, start |-> start,
     stops |-> StopSeq,
